@@ -544,6 +544,63 @@ def run_shard(shard):
                             record("bytes%r" % (jk[:6],), data.decode("latin1"), 2048, "2048", [("late-or-lost-around-junk", "transport=%s,bytes" % side, "delivered %r" % (kinds,))], [p.decode("latin1") for p in pieces][:6], {"mode": "transport"})
                     finally:
                         loop.teardown()
+        # the TTY transport reads LINES: junk lines of every shape (empty, CR LF only, blanks, a lone '<', binary junk,
+        # half a tag) before / between / after valid one-line messages, every ordering of <= 2 junk lines per gap
+        import io
+        import itertools
+
+        from indi.transport.server.tty import ConnectionHandler as TtyH
+
+        junk_lines = ["\n", "\r\n", "   \n", "<\n", "\x00\xff junk &;\n", "<getProperties\n", "</oneText>\n", "]]>\n"]
+        valid = ['<getProperties version="1.7" device="A"/>\n', '<getProperties version="1.7" device="B"/>\n', '<getProperties version="1.7" device="C"/>\n']
+        gaps = [()] + [(j,) for j in junk_lines] + list(itertools.permutations(junk_lines[:4], 2))
+        for gap in gaps:
+            for where in (0, 1, 2, 3):
+                lines = []
+                for k in range(3):
+                    if where == k:
+                        lines += list(gap)
+                    lines.append(valid[k])
+                if where == 3:
+                    lines += list(gap)
+                loop = VL.VLoop().install()
+                try:
+                    got = []
+                    router = Router()
+
+                    class RecT(Device):
+                        def accepts(self, device):
+                            return True
+
+                        def message_from_client(self, message):
+                            got.append(message.device)
+
+                    router.register_device(RecT())
+                    src = VL.LineSource()
+                    in_ctl = VL.CtlExecutor()
+                    h = TtyH(router, VL.aio_text(src, loop, in_ctl), VL.aio_text(io.StringIO(), loop, VL.CtlExecutor()))
+                    task = loop.create_task(h.handle())
+                    loop.quiesce()
+                    for ln in lines:
+                        src.supply(ln)
+                        for _ in range(50):
+                            loop.quiesce()
+                            if len(in_ctl) and src.available():
+                                in_ctl.run(0)
+                            else:
+                                break
+                    loop.quiesce()
+                    res["transitions"] += len(lines)
+                    res["streams"] += 1
+                    # "<getProperties" (half a tag) legitimately swallows what follows until the threshold: not judged
+                    imitating = any(j.startswith("<getProperties") for j in gap)
+                    if task.done():
+                        exc = task.exception() if not task.cancelled() else None
+                        record("tty-lines", "".join(lines), 2048, "2048", [("raises" if exc else "late-or-lost-around-junk", "transport=tty,junk-lines", "the TTY handler stopped after junk lines %r: %r" % (gap, exc))], lines[:8], {"mode": "transport"})
+                    elif got != ["A", "B", "C"] and not imitating:
+                        record("tty-lines", "".join(lines), 2048, "2048", [("late-or-lost-around-junk", "transport=tty,junk-lines", "junk lines %r at gap %d: delivered %r" % (gap, where, got))], lines[:8], {"mode": "transport"})
+                finally:
+                    loop.teardown()
         res["states"] = res["streams"]
         res["violations"] = list(sig.values())
         return res
